@@ -638,9 +638,18 @@ def gen_edits(rng, chain, d):
     return out
 
 
-def gen_incoming(rng, store_chain, cur_chain):
-    """An object for set_state: same class, a parent, a subclass or an unrelated class."""
-    if store_chain == [0]:
+def gen_incoming(rng, store_chain, cur_chain, force=None):
+    """An object for set_state: same class, a parent, a subclass or an unrelated class
+    (force="sub"/"parent": a strict subclass / strict parent of the current class when there is one)."""
+    family = [[1], [1, 2], [1, 2, 3]]
+    forced = None
+    if force == "sub":
+        forced = [c for c in family if len(c) > len(cur_chain) and c[:len(cur_chain)] == cur_chain]
+    elif force == "parent":
+        forced = [c for c in family if len(c) < len(cur_chain) and cur_chain[:len(c)] == c]
+    if forced:
+        ch = rng.choice(forced)
+    elif store_chain == [0]:
         ch = [0] if rng.random() < 0.9 else rng.choice([[1], [9]])
     else:
         x = rng.random()
@@ -679,12 +688,12 @@ def gen_case(rng, i):
     script = []
     if opening == 0:                               # snapshot, change it, read the store
         script = ["set", "get_state", "snap_edit", "get", "get_state", "snap_write", "get"]
-    elif opening == 1 and chain != [0]:            # set_state as the very first operation
-        script = ["set_state", "get_state", "clear", "get_state"]
+    elif opening == 1 and chain != [0]:            # set_state (a parent class) as the very first operation
+        script = ["set_parent", "get_state", "clear", "get_state"]
     elif opening == 2 and chain == [0]:            # numeric first segment
         script = ["numset", "numget", "get_state"]
     elif opening == 3 and chain != [0]:            # subclass replacement, then clear
-        script = ["get", "set_state", "clear", "get_state"]
+        script = ["get", "set_sub", "clear", "get_state"]
     tainted = False    # a nested in-place set happened since the snapshot was taken (see Model/StateStore.v wb_clean)
     while len(ops) < max(n, len(script)):
         k = script[len(ops)] if len(ops) < len(script) else rng.choice(OPK)
@@ -706,8 +715,8 @@ def gen_case(rng, i):
         elif k == "get":
             p = gen_path(rng, orc) if rng.random() > 0.04 else ""
             o = ("get", p, rng.choice([None, None, (None,), (gen_value(rng, 2),)]))
-        elif k == "set_state":
-            ch, items = gen_incoming(rng, chain, orc.cls)
+        elif k in ("set_state", "set_sub", "set_parent"):
+            ch, items = gen_incoming(rng, chain, orc.cls, force={"set_sub": "sub", "set_parent": "parent"}.get(k))
             o = ("set_state", ch, items)
         elif k == "clear":
             o = ("clear",)
